@@ -92,6 +92,20 @@ def py_bool(s):
     return None
 
 
+MAX_DIGITS = 1500
+
+
+def too_big_for_coq(rows):
+    for r in rows:
+        for c in r:
+            if len(c) > MAX_DIGITS:
+                for w in [c.strip()] + c.split():
+                    i = py_int(w) if len(w) > MAX_DIGITS else None
+                    if i is not None and abs(i) >= 10 ** MAX_DIGITS:
+                        return True
+    return False
+
+
 def tokenise(text):
     s = text.strip()
     return (s, s.lower() == "default", py_int(s), py_bool(s), [py_int(w) for w in s.split()])
@@ -437,7 +451,7 @@ def cell_mutations(enums):
     big = str(2 ** 70)
     muts = [
         "", " ", "default", "DEFAULT", " Default ", "defaul", "defaults",
-        "-1", "0", "1", "2", "3", "5", "64", "66", "99", "255", "1000000", big, "-" + big, "9" * 4400, "7" * 300,
+        "-1", "0", "1", "2", "3", "5", "64", "66", "99", "255", "1000000", big, "-" + big, "9" * 1200, "7" * 300,
         "1.5", "1.0", "1e3", "0x10", "+5", "-0", "007", "1_0", "_1", "1 ", "１２", "٣", "²", "1\x00",
         "abc", "None", "nan", "TRUE", "true", "False", "FALSE", "yes", "No", "T", "f", "Y", "maybe", "truee",
         "high_quality", "HIGH_QUALITY", "High_Quality", "high quality", "low_delay", "hd1080p_50", "HD1080P_50",
@@ -784,6 +798,11 @@ def run(ctx):
                   bucket="%s -> %s" % (tag.split(":")[0], bucket))
         if len(ctx.samples) < 4 and tag.startswith(("cell", "generated")) and len(text) < 1500:
             ctx.sample({"tag": tag, "mode": mode, "text": text, "outcome": bucket})
+        if rows is not None and too_big_for_coq(rows):
+            # integers of thousands of digits (the package lifts CPython's int-string limit): implementation
+            # and oracle only; the decimal literal would dominate the Coq run
+            ctx.count(0, bucket="(not sent to Coq: integer literal over %d digits)" % MAX_DIGITS)
+            continue
         if obs is not None:
             coq_cases.append((rows, obs))
             meta.append((tag, text, mode, bucket))
